@@ -25,7 +25,14 @@ from ..miniint import IndexInterp, SymObj, is_token
 from . import common
 
 
-def _model():
+def _model(no_functions=False):
+    m = _model_full()
+    if no_functions:
+        m["functions"] = []          # a model may consist of points, PEP-level constraints and partitions only
+    return m
+
+
+def _model_full():
     mk = lambda kind, label, **a: SymObj(kind, label=label, **a)
     m = {}
     m["metrics"] = [mk("Expression", "metric1"), mk("Expression", "metric2")]
@@ -48,7 +55,7 @@ class _Run:
     def __init__(self, root, wname, cfg):
         self.root, self.cfg = root, cfg
         self.trace = []
-        self.model = _model()
+        self.model = _model(cfg.get("nofunc", False))
         self.wrapper = SymObj("Wrapper", label="wrapper")
         self.solves = 0
         self.metric_cons = []
@@ -127,6 +134,7 @@ class _Run:
 def _configs():
     for heur, mode, value, verbose in itertools.product((None, "trace", "logdet2"), ("dual", "primal"), (("value", 1), None), (0, 1)):
         yield {"heur": heur, "mode": mode, "value": value, "verbose": verbose}
+    yield {"heur": None, "mode": "dual", "value": ("value", 1), "verbose": 0, "nofunc": True}
 
 
 def _labels(objs):
@@ -214,10 +222,15 @@ def r_solve_program(ctx, only):
         n += 1
         run, it = prepare(cfg)
         m = run.model
-        label = "heuristic=%s mode=%s first optimum=%s verbose=%s" % (cfg["heur"], cfg["mode"], "finite" if cfg["value"] else "None", cfg["verbose"])
+        label = "heuristic=%s mode=%s first optimum=%s verbose=%s%s" % (cfg["heur"], cfg["mode"], "finite" if cfg["value"] else "None", cfg["verbose"],
+                                                                         " (model without functions)" if cfg.get("nofunc") else "")
         try:
             ret = it.run(root.body)
         except AnalysisError as e:
+            if "the index program raises" in str(e):
+                # a documented configuration on a well-formed model must go through
+                problems.setdefault("heur" if cfg["heur"] else "return", "%s: the solve raises on a documented configuration (%s)" % (label, str(e)[:120]))
+                continue
             # the structural rules on the solve root (R-DRAIN, R-PAIR, R-ORDER, R-PRIMALFLOW, R-HEURCALL, R-RET, R-NONE) decide the same clauses on
             # the syntax tree; the unrolled program is the sharper instrument when the root stays inside the interpreted fragment
             ctx.notes.append("R-SOLVEPROG skipped: solve root not interpretable (%s): %s" % (label, e))
@@ -253,6 +266,15 @@ def r_solve_program(ctx, only):
         if [t for t in tr if t[0] == "set_class_constraints"] and set(id(t[1]) for t in tr if t[0] == "set_class_constraints") != set(id(f0) for f0 in leaf_fns):
             fail("drain", "class constraints are regenerated for %s, the leaf functions are %s" % (
                 _labels([t[1] for t in tr if t[0] == "set_class_constraints"]), _labels(leaf_fns)))
+        # every partition generates its relations exactly once per solve, whatever else the model contains, before anything is sent
+        for b0 in m["partitions"]:
+            calls = [k for k, t in enumerate(tr) if t[0] == "add_partition_constraints" and t[1] is b0]
+            first_send = min([k for k, t in enumerate(tr) if t[0] in ("send_constraint_to_solver", "send_lmi_constraint_to_solver")] or [len(tr)])
+            if len(calls) != 1:
+                fail("drain", "add_partition_constraints is called %d time(s) on a partition during one solve, expected once (model with %d functions)" % (
+                    len(calls), len(m["functions"])))
+            elif calls[0] > first_send:
+                fail("drain", "the partition relations are generated after the first object was sent")
         gen = [k for k, t in enumerate(tr) if t[0] == "generate_problem"]
         sends = [k for k, t in enumerate(tr) if t[0] in ("send_constraint_to_solver", "send_lmi_constraint_to_solver")]
         first_solve = names.index("solve") if "solve" in names else None
@@ -343,7 +365,7 @@ def r_solve_program(ctx, only):
             fail("return", "mode 'primal' returns the optimum of solve #%s while the published instance (Gram matrix, function values) is the solution of "
                  "solve #%d: the value returned is not the objective of the instance returned" % (ret[1], nsolve))
         # ---- verbosity changes nothing
-        key = (cfg["heur"], cfg["mode"], bool(cfg["value"]))
+        key = (cfg["heur"], cfg["mode"], bool(cfg["value"]), bool(cfg.get("nofunc")))
         def norm(v):
             if isinstance(v, SymObj):
                 return v.attrs.get("label")
